@@ -484,7 +484,10 @@ class ProgramSet(NamedItem):
             spreadsheet = sc.Spreadsheet(spreadsheet)
 
         workbook = openpyxl.load_workbook(spreadsheet.tofile(), read_only=True, data_only=True)  # Load in read-only mode for performance, since we don't parse comments etc.
-        validate_category(workbook, "atomica:progbook")
+        try:
+            validate_category(workbook, "atomica:progbook")
+        except Exception as e:
+            raise InvalidProgramBook(str(e)) from e
 
         # Load individual sheets
         try:
